@@ -376,17 +376,24 @@ class Run:
 
 
 def load_known():
-    p = os.path.join(VERIF, "known_findings.json")
+    """known_findings.txt: one entry per line,
+         known: property=<id> signature=<exact signature> <what fails>
+         fixed: property=<id> <commit> <what failed>
+       `fixed` entries suppress nothing; the file is never written at run time."""
+    p = os.path.join(VERIF, "known_findings.txt")
+    out = []
     if not os.path.exists(p):
-        return []
-    return json.load(open(p)).get("findings", [])
+        return out
+    for line in open(p):
+        line = line.strip()
+        m = re.match(r"known: property=(\S+) signature=(\S+) (.*)", line)
+        if m:
+            out.append(dict(status="known", property=m.group(1), signature=m.group(2), what=m.group(3)))
+    return out
 
 
 def match_known(known, prop, sig):
     for k in known:
-        if k.get("status") != "known" or k.get("property") != prop:
-            continue
-        pat = k.get("signature", "")
-        if pat == sig or (k.get("signature_regex") and re.fullmatch(k["signature_regex"], sig)):
+        if k["status"] == "known" and k["property"] == prop and k["signature"] == sig:
             return k
     return None
